@@ -140,6 +140,14 @@ func (n *Node) Block(txs []*PendingTx, dt time.Duration) *abci.ResponseFinalizeB
 	return res
 }
 
+// Simulate runs a transaction the way a node serves a gas estimation: against the last committed
+// state, on a branch that is discarded. Nothing of it may survive.
+func (n *Node) Simulate(signer *Account, gas uint64, msgs ...sdk.Msg) (*sdk.Result, error) {
+	num, seq := n.accountNumSeq(n.Ctx(), signer)
+	_, res, err := n.App.Simulate(n.sign(signer, num, seq, gas, msgs...))
+	return res, err
+}
+
 func (n *Node) mustBlock() { n.Block(nil, 5*time.Second) }
 
 func (n *Node) mustTxs(txs []*PendingTx) *abci.ResponseFinalizeBlock {
